@@ -112,7 +112,9 @@ class AVec:
     @property
     def shape(s): raise Concretised("shape of abstract vector")
     @property
-    def size(s): raise Concretised("size of abstract vector")
+    def size(s):
+        from .shims import ADIM                       # the number of components is the (one) unknown dimension
+        return ADIM
     ndim = 1
     def same(s, o):
         """z3 Bool: the two abstract vectors have the same normal form"""
